@@ -60,8 +60,8 @@ structure Env where
   ci : Bool
   dm : Bytes
   fm : Bytes
-  maxDirs : Nat      -- dirmeta.size // 0x18
-  maxFiles : Nat     -- filemeta.size // 0x20
+  maxDirs : Nat      -- len(dirmeta read) // 0x18
+  maxFiles : Nat     -- len(filemeta read) // 0x20
 
 def Env.key (e : Env) (name : Str) : Str := if e.ci then e.lower name else name
 
@@ -124,6 +124,13 @@ structure Parsed where
 
 def u32 (b : Bytes) (off : Nat) : Nat := readLE (slice b off 4)
 
+/-- the two metadata tables as read from the file, and the visit caps: counted from what was actually read (the sizes in the
+    header can be larger than the file) -/
+def mkEnv (lower : Str → Str) (ci : Bool) (file : Bytes) (base dmo dms fmo fms : Nat) : Env :=
+  let dm := slice file (base + dmo) dms
+  let fm := slice file (base + fmo) fms
+  ⟨lower, ci, dm, fm, dm.length / 0x18, fm.length / 0x20⟩
+
 /-- `RomFSReader.__init__` on the whole underlying file, the RomFS beginning at `start` -/
 def parse (lower : Str → Str) (ci : Bool) (file : Bytes) (start : Nat) : Except Err Parsed :=
   let header := slice file start 0x5C
@@ -148,10 +155,8 @@ def parse (lower : Str → Str) (ci : Bool) (file : Bytes) (start : Nat) : Excep
       if hsize ≠ 0x28 ∨ dho < hsize ∨ dmo < dho + dhs ∨ fho < dmo + dms ∨ fmo < fho + fhs ∨ fdo < fmo + fms
       then .error (.other "InvalidRomFSHeaderError")
       else
-        let dm := slice file (start + lv3off + dmo) dms
-        let fm := slice file (start + lv3off + fmo) fms
-        let e : Env := ⟨lower, ci, dm, fm, dms / 0x18, fms / 0x20⟩
-        match iterDir e (2 * e.maxDirs + e.maxFiles + 3) (slice dm 0 0x18) ⟨0, 0⟩ with
+        let e := mkEnv lower ci file (start + lv3off) dmo dms fmo fms
+        match iterDir e (2 * e.maxDirs + e.maxFiles + 3) (slice e.dm 0 0x18) ⟨0, 0⟩ with
         | .error err => .error err
         | .ok (contents, _) => .ok ⟨.dir [0x52, 0x4F, 0x4F, 0x54] contents, lv3off, lv3off + fdo⟩
 
